@@ -22,7 +22,21 @@ TokenLevel == {"InsertWs", "InsertCmt"}
 SameOutput(o, c) == \/ (o.k = "ok" /\ c.k = "ok" /\ o.v = c.v)
                     \/ (o.k = "err" /\ c.k = "err")
 
+(* a pair made from a token program of Rewrite!Snippets *)
+ExplainedSnippet(e) ==
+  /\ e.snip \in SnipIds
+  /\ Len(e.triv) >= 1
+  /\ LET s == SnipById(e.snip) IN
+     /\ \A i \in DOMAIN e.triv : SnipTrivOK(s, e.triv[i])
+     /\ e.o.k = "ok"                      \* the original of every snippet compiles
+     /\ \/ SameOutput(e.o, e.c)
+        \/ \E d \in {e.devs[j] : j \in DOMAIN e.devs} :
+              /\ \E i \in DOMAIN e.triv : SnipDevScope(d, s, e.triv[i])
+              /\ SnipDevClass(d, e.c)
+              /\ PrintT(<<"MSG", "KNOWN", d, e.case>>)
+
 Explained(e) ==
+  IF e.kind = "snippet" THEN ExplainedSnippet(e) ELSE
   /\ Len(e.rws) >= 1
   /\ \A i \in DOMAIN e.rws : e.rws[i] \in RewriteNames
   /\ (e.kind = "corpus" => \A i \in DOMAIN e.rws : e.rws[i] \in TokenLevel)     \* corpus inputs: token-level rewrites only
